@@ -234,6 +234,18 @@ def run(ctx):
             continue
         triage(rs, 'C18.4', repo.func('Parser.cleanup'))
 
+    # "every connection that was opened [is] reported closed": the open / remember / close-at-end discipline of the log back end is C04.6;
+    # its findings are findings here (a connection opened but not remembered is never closed)
+    from ..report import Ctx as _Ctx
+    from . import c04 as _c04
+    sub = _Ctx('C04', repo, tier=ctx.tier, quiet=True)
+    _c04.run(sub)
+    nl4 = len([o for o in sub.obligations if o['rule'] == 'C04.6'])
+    for v in sub.violations:
+        if v['rule'] == 'C04.6':
+            ctx.violation('C18.4', 'opened-then-closed:%s' % v['key'], v['site'], 'every opened connection must be reported closed when input ends (C04.6): %s' % v['msg'], v['witness'])
+    ctx.check(True, 'C18.4', 'opened-then-closed:evaluated', 'Parser.handle_message / Parser.cleanup', 'open / remember / close-at-end discipline evaluated (C04.6, %d obligations)' % nl4)
+    ctx.floor('C18.4', nl4, 6, 'C04.6 obligations lifted')
     # ---- C18.5 --------------------------------------------------------------------------------------------------
     seen = set()
     for rs in sorted(ex.escapes(f_pc), key=lambda r: r.key()):
